@@ -1163,7 +1163,9 @@ impl<'a, I, A> Strategies<'a, I, A> {
                 if info.is_empty() {
                     0.0
                 } else {
-                    dist / info.len() as f64
+                    // each infoset contributes at most 2 (disjoint supports), so halve to stay in
+                    // the documented range
+                    dist / (2.0 * info.len() as f64)
                 }
             })
             .collect();
